@@ -19,6 +19,17 @@ claimed = {
  "C19": ("property-based testing (rapid): exact round trip over boundary sets of every Go field type", R + "boundary and random values must survive CopyTo;CopyFrom"),
  "C20": ("property-based testing (rapid): reference model of null-ness after CopyTo into an empty object", R + "null flags compared with the fields"),
 }
+claimed.update({
+ "C06": ("property-based testing (rapid): fault injection into objects / attribute types with an expected-diagnostics model and a differential oracle (nullified twin, untouched run)", R + "corruption scripts at any depth; diagnostics as multisets, remaining attributes against an uncorrupted reference"),
+ "C11": ("property-based testing (rapid): differential testing of two configurations (K0, K0 + one entry) compiled into one binary, each against the reference model", R + "schemas against their models, converters against each other on inputs translated by proto field chain"),
+ "C12": ("property-based testing (rapid): metamorphic relation over requests (types subsets, extra messages and files) with byte-level comparison of per-function source text", G + "three plugin runs per case compared function by function"),
+ "C13": ("property-based testing (rapid): differential testing of same-package vs separate-package output in one binary", R + "schemas, CopyTo/CopyFrom results and diagnostics of the two layouts must be equal"),
+ "C14": ("property-based testing (rapid): repeated process runs and shuffled renderings of one configuration, byte comparison of responses", G + "6 runs + 4 shuffled YAML + 2 shuffled command-line renderings per case"),
+ "C15": ("property-based testing (rapid): metamorphic relation under declaration-order permutations (bytes with sort on, behaviour in one binary with sort off)", G + "and, with sort off, " + R + "permuted and original descriptors must agree"),
+ "C16": ("property-based testing (rapid): metamorphic relation over channel splits of one configuration, byte comparison; failure cases", G + "all-YAML vs every drawn split, precedence and failure cases"),
+ "C17": ("property-based testing (rapid): call-log oracle over instrumented user hooks + metamorphic type flip", R + "hook calls matched against the custom fields reached"),
+ "C18": ("property-based testing (rapid): fault injection of one unmappable field with per-function differential comparison and a reference model of reachability", G + "runs without the field, with it, and with it excluded"),
+})
 pending = "check under construction in this round (not yet claimed)"
 checks, na = [], []
 for p in props:
